@@ -14,6 +14,21 @@ def simple(prop, config="pm", **kw):
     return run
 
 
+def with_overflow_checks(prop, config="pm", **kw):
+    """The workload once on the ordinary optimised build and once on a build with integer-overflow checks on (what
+    `cargo test` and every debug build of the library have): for the crash-freedom properties an overflow that wraps
+    silently in one build profile and panics in the other is a panic the statement excludes."""
+    def run(ctx):
+        b = ctx.build(config)
+        ctx.run_vh(b, prop, **kw)
+        try:
+            bo = ctx.build(config, san="ovf")
+            ctx.run_vh(bo, prop, tag=prop + "-overflow-checks", **kw)
+        except BuildFailed as e:
+            ctx.inconclusive.append("overflow-checks build failed: %s" % e.log[-600:])
+    return run
+
+
 def run_c09(ctx):
     b = ctx.build("pm")
     ctx.run_vh(b, "C09")
@@ -136,9 +151,9 @@ PLANS = {
             "min_evaluations": {"quick": 40, "thorough": 1000}, "min_distinct": {"quick": 40, "thorough": 500}},
     "C02": {"level": "exploration", "run": simple("C02", timeout=7200),
             "min_evaluations": {"quick": 1500, "thorough": 30000}, "min_distinct": {"quick": 50, "thorough": 60}},
-    "C12": {"level": "exploration", "run": simple("C12", timeout=7200),
+    "C12": {"level": "exploration", "run": with_overflow_checks("C12", timeout=7200),
             "min_evaluations": {"quick": 200, "thorough": 1500}, "min_distinct": {"quick": 40, "thorough": 60}},
-    "C13": {"level": "exploration", "run": simple("C13", timeout=7200),
+    "C13": {"level": "exploration", "run": with_overflow_checks("C13", timeout=7200),
             "min_evaluations": {"quick": 3000, "thorough": 60000}, "min_distinct": {"quick": 300, "thorough": 350}},
     "C06": {"level": "exploration", "run": run_tree("C06"),
             "min_evaluations": {"quick": 20000, "thorough": 500000}, "min_distinct": {"quick": 2000, "thorough": 20000}},
@@ -160,9 +175,9 @@ PLANS = {
             "min_evaluations": {"quick": 20000, "thorough": 200000}, "min_distinct": {"quick": 200, "thorough": 300}},
     "C14": {"level": "exploration", "run": simple("C14"),
             "min_evaluations": {"quick": 20000, "thorough": 200000}, "min_distinct": {"quick": 50, "thorough": 60}},
-    "C19": {"level": "exploration", "run": simple("C19"),
+    "C19": {"level": "exploration", "run": with_overflow_checks("C19"),
             "min_evaluations": {"quick": 100000, "thorough": 5000000}, "min_distinct": {"quick": 500, "thorough": 1000}},
-    "C20": {"level": "exploration", "run": simple("C20"),
+    "C20": {"level": "exploration", "run": with_overflow_checks("C20"),
             "min_evaluations": {"quick": 50000, "thorough": 500000}, "min_distinct": {"quick": 100, "thorough": 150}},
 }
 
@@ -175,6 +190,11 @@ def setup(ctx):
         except BuildFailed as e:
             print("setup: build of %s failed:\n%s" % (cfg, e.log[-2000:]))
             ok = False
+    try:
+        ctx.build("pm", san="ovf")
+    except BuildFailed as e:
+        print("setup: overflow-checks build failed:\n%s" % e.log[-2000:])
+        ok = False
     print(json.dumps(ctx.build_log))
     ctx.cleanup()
     return 0 if ok else 2
